@@ -218,7 +218,7 @@ class LocationProtocol(HDAP):
         request_id: Union[int, bytes],
         radio_ip: Union[bytes, RadioIP],
         result: Union[int, bytes] = 0,  # 0 = OK, SUCCESS RESULT
-        gpsdata: Union[bytes, GPSData] = GPSData.zero(),
+        gpsdata: Optional[Union[bytes, GPSData]] = None,
         is_reliable: bool = False,
     ):
         super().__init__(is_reliable=is_reliable)
@@ -261,7 +261,8 @@ class LocationProtocol(HDAP):
                 self.request_id.to_bytes(length=4, byteorder="big")
                 + self.radio_ip.as_bytes()
                 + self.result.value.to_bytes(length=2, byteorder="big")
-                + self.gpsdata.as_bytes()
+                # no position given: report "no fix" stamped when it is sent
+                + (self.gpsdata or GPSData.zero()).as_bytes()
             )
         elif self.specific_service == LocationProtocolSpecificService.StandardRequest:
             return (
